@@ -103,6 +103,12 @@ pub fn alphabet(inst: usize, allowed: &[u16], ids: &[u16], layouts: usize) -> Ve
         add(format!("OT-all-zero-lengths(IPFIX,{})", id), ipm(vec![IpfixSet::OptTpl(vec![IpfixOptTpl { id: *id, scope_count: 1, fields: vec![fs(149, 0), fs(41, 0)] }], 0)]), None, 10, false);
         add(format!("OT-no-fields(IPFIX,{})", id), ipm(vec![IpfixSet::OptTpl(vec![IpfixOptTpl { id: *id, scope_count: 0, fields: vec![] }], 0)]), None, 10, false);
     }
+    // data sets that cannot hold a record (3 bytes, empty): like every data set they must leave the caches alone
+    for id in ids {
+        add(format!("D-short(V9,{})", id), v9p(vec![V9Set::Data(*id, vec![0xaa, 0xbb, 0xcc])]), None, 9, false);
+        add(format!("D-short(IPFIX,{})", id), ipm(vec![IpfixSet::Data(*id, vec![0xaa, 0xbb, 0xcc])]), None, 10, false);
+        add(format!("D-empty(IPFIX,{})", id), ipm(vec![IpfixSet::Data(*id, vec![])]), None, 10, false);
+    }
     add("V5".into(), fixed_distinct(5, 2, 3), None, 0, false);
     add("V7".into(), fixed_distinct(7, 1, 4), None, 0, false);
     add("garbage".into(), (0..11).map(|j| fill(50, j) | 0x80).collect(), None, 0, false);
